@@ -44,8 +44,10 @@ type NodeSpec struct {
 	PS      int   `json:"ps,omitempty"`    // ProcessState calls of a lambda
 	Preds   []int `json:"preds,omitempty"` // empty = START
 	DelayUs int   `json:"delay,omitempty"` // sleep inside the lambda body
-	// state type (0 = *St, 1 = *St2) the pre-handler / post-handler / ProcessState calls of
-	// this node are written for; nil = the type of the state the node sees (well typed)
+	// state type (0 = *St, 1 = *St2; only in malformed programs: 2 = St, 3 = St2, the struct types
+	// themselves, i.e. the declared state types at another pointer depth) the pre-handler /
+	// post-handler / ProcessState calls of this node are written for; nil = the type of the state
+	// the node sees (well typed)
 	PreTy  *int `json:"prety,omitempty"`
 	PostTy *int `json:"postty,omitempty"`
 	PSTy   *int `json:"psty,omitempty"`
@@ -88,6 +90,22 @@ type IntSpec struct {
 	Nodes    []int `json:"nodes"` // interrupt before (or, with After, after) these nodes of that graph
 	After    bool  `json:"after,omitempty"`
 	Modifier bool  `json:"modifier"`
+	// Also: interrupt nodes configured in a second graph as well - a sibling nested graph of Graph
+	// (run by another node of the same enclosing graph): when the two enclosing nodes run in the
+	// same step both nested graphs interrupt at once and one checkpoint holds both
+	Also *IntSpec `json:"also,omitempty"`
+}
+
+// the graphs with interrupt nodes configured
+func (c *Case) intSpecs() []*IntSpec {
+	if c.Interrupt == nil {
+		return nil
+	}
+	l := []*IntSpec{c.Interrupt}
+	if c.Interrupt.Also != nil {
+		l = append(l, c.Interrupt.Also)
+	}
+	return l
 }
 
 type Case struct {
@@ -717,13 +735,45 @@ func asSt[S any](s S) *St {
 		return t
 	case *St2:
 		return (*St)(t)
+	case St: // (a handler written for the struct type is never handed a state by a correct eino)
+		return &t
+	case St2:
+		return (*St)(&t)
 	}
 	return nil
 }
 
 func isSt2[S any](s S) bool {
-	_, ok := any(s).(*St2)
-	return ok
+	switch any(s).(type) {
+	case *St2, St2:
+		return true
+	}
+	return false
+}
+
+// handlerOptsTy / processStateTy: the handler / the call written for the state type with code ty
+func handlerOptsTy(h *rec, n NodeSpec, pre bool, ty int) compose.GraphAddNodeOpt {
+	switch ty {
+	case 1:
+		return handlerOpts[*St2](h, n, pre)
+	case 2:
+		return handlerOpts[St](h, n, pre)
+	case 3:
+		return handlerOpts[St2](h, n, pre)
+	}
+	return handlerOpts[*St](h, n, pre)
+}
+
+func processStateTy(h *rec, ctx context.Context, ty, id, kc int, x *[]KV, fail error) error {
+	switch ty {
+	case 1:
+		return processState[*St2](h, ctx, id, kc, x, fail)
+	case 2:
+		return processState[St](h, ctx, id, kc, x, fail)
+	case 3:
+		return processState[St2](h, ctx, id, kc, x, fail)
+	}
+	return processState[*St](h, ctx, id, kc, x, fail)
 }
 
 var errInjected = errors.New("c11: injected handler failure")
@@ -794,18 +844,10 @@ func (h *rec) nodeOpts(c *Case, gi int, n NodeSpec) []compose.GraphAddNodeOpt {
 	var opts []compose.GraphAddNodeOpt
 	def := c.Forest[gi].STy
 	if n.Pre {
-		if tyOr(n.PreTy, def) == 1 {
-			opts = append(opts, handlerOpts[*St2](h, n, true))
-		} else {
-			opts = append(opts, handlerOpts[*St](h, n, true))
-		}
+		opts = append(opts, handlerOptsTy(h, n, true, tyOr(n.PreTy, def)))
 	}
 	if n.Post {
-		if tyOr(n.PostTy, def) == 1 {
-			opts = append(opts, handlerOpts[*St2](h, n, false))
-		} else {
-			opts = append(opts, handlerOpts[*St](h, n, false))
-		}
+		opts = append(opts, handlerOptsTy(h, n, false, tyOr(n.PostTy, def)))
 	}
 	return opts
 }
@@ -840,11 +882,7 @@ func (h *rec) lambda(n NodeSpec, psTy int) *compose.Lambda {
 			if failKC == kBody+j+1 {
 				fail = errInjected
 			}
-			if psTy == 1 {
-				err = processState[*St2](h, ctx, id, kBody+j, &x, fail)
-			} else {
-				err = processState[*St](h, ctx, id, kBody+j, &x, fail)
-			}
+			err = processStateTy(h, ctx, psTy, id, kBody+j, &x, fail)
 			if err != nil {
 				return nil, err
 			}
@@ -883,12 +921,15 @@ func (c *Case) compileOpts(gi int) []compose.GraphCompileOption {
 	if g.Loop != nil {
 		opts = append(opts, compose.WithMaxRunSteps(len(g.Nodes)*(g.Loop.Iter+1)+10))
 	}
-	if c.Interrupt != nil && c.Interrupt.Graph == gi && len(c.Interrupt.Nodes) > 0 {
+	for _, is := range c.intSpecs() {
+		if is.Graph != gi || len(is.Nodes) == 0 {
+			continue
+		}
 		var keys []string
-		for _, id := range c.Interrupt.Nodes {
+		for _, id := range is.Nodes {
 			keys = append(keys, nkey(id))
 		}
-		if c.Interrupt.After {
+		if is.After {
 			opts = append(opts, compose.WithInterruptAfterNodes(keys))
 		} else {
 			opts = append(opts, compose.WithInterruptBeforeNodes(keys))
@@ -1689,6 +1730,9 @@ func (c *Case) tags(o *Obs) []string {
 			if c.Interrupt.After {
 				t = append(t, "interrupt:after")
 			}
+			if c.Interrupt.Also != nil {
+				t = append(t, "interrupt:two-nested-graphs")
+			}
 		} else {
 			t = append(t, "interrupt:not-hit")
 		}
@@ -1700,9 +1744,15 @@ func (c *Case) tags(o *Obs) []string {
 		for _, n := range g.Nodes {
 			if (n.Pre && tyOr(n.PreTy, g.STy) != g.STy) || (n.Post && tyOr(n.PostTy, g.STy) != g.STy) {
 				t = append(t, "malformed:handler-state-type")
+				if (n.Pre && tyOr(n.PreTy, g.STy) >= 2) || (n.Post && tyOr(n.PostTy, g.STy) >= 2) {
+					t = append(t, "malformed:handler-pointer-depth")
+				}
 			}
 			if n.Sub < 0 && n.PS > 0 && c.ownerOf(gi) >= 0 && tyOr(n.PSTy, c.visibleTy(gi)) != c.visibleTy(gi) {
 				t = append(t, "malformed:processstate-type")
+				if tyOr(n.PSTy, 0) >= 2 {
+					t = append(t, "malformed:processstate-pointer-depth")
+				}
 			}
 		}
 	}
